@@ -372,6 +372,8 @@ def main(argv=None) -> int:
     st.add_argument("props", nargs="*")
     st.add_argument("--runs", type=int, default=None)
     st.set_defaults(fn=lambda a: importlib.import_module("mdsim.selftest").determinism(a))
+    smo = sub.add_parser("selftest-models")
+    smo.set_defaults(fn=lambda a: importlib.import_module("mdsim.selftest").models(a))
     sm = sub.add_parser("selftest-seeded")
     sm.add_argument("ids", nargs="*")
     sm.add_argument("--tier", default="quick")
